@@ -479,6 +479,9 @@ impl<O: PlainOracle> System for PlainSys<O> {
     fn same(&self, a: &PState<O>, b: &PState<O>) -> bool {
         a.sc == b.sc
     }
+    fn fine_key(&self, s: &PState<O>) -> Option<u128> {
+        Some(debug_fp(&s.sc, 0, 0))
+    }
     fn n_classes(&self) -> usize {
         6
     }
